@@ -1,7 +1,7 @@
 (* C09 -- property theorems only: each is closed by [exact] of a lemma proved elsewhere. *)
 From Coq Require Import List Arith ZArith NArith PArith Permutation.
 From Muscle Require Import Cont.HtModel Cont.HtStep Cont.HtIdeal Cont.HtLemmas Cont.HtRepr Cont.HtWalk
-                           Cont.HtTable Cont.HtInv Cont.HtSafe Cont.HtSafeAll Cont.HtRefine Cont.HtPend Cont.HtTravW Cont.HtTravOps Cont.HtTravSem Cont.HtTravThm Cont.HtTravAny Cont.HtTravRefuted Cont.HtSorted Cont.HtSortedThm Cont.HtIdealLaws Cont.HtLaws Cont.HtClearModel Cont.HtClear Gen.Consts.
+                           Cont.HtTable Cont.HtInv Cont.HtSafe Cont.HtSafeAll Cont.HtRefine Cont.HtPend Cont.HtTravW Cont.HtTravOps Cont.HtTravSem Cont.HtTravThm Cont.HtTravAny Cont.HtTravRefuted Cont.HtSorted Cont.HtSortedThm Cont.HtIdealLaws Cont.HtLaws Cont.HtClearModel Cont.HtClear Cont.HtStore Cont.HtStoreProofs Cont.HtStoreLink Gen.Consts.
 Import ListNotations.
 
 (* InsertIterationEntry is list insertion: if the links of h form the list l1 ++ l2 and e is an
@@ -232,6 +232,114 @@ Theorem C09_clear_loop : forall dcap h I release l, tinv h l ->
   ilist (fst a) = ilist (fst b) /\ (forall y, getn (fst a) y = getn (fst b) y).
 Proof. exact clear_literal_spec. Qed.
 Print Assumptions C09_clear_loop.
+
+(* ------------------------------------------------------------------ the storage layer (HtStore.v)
+   The slot array of HashtableBase: per slot hash/key/value, BUCKET_PREV / BUCKET_NEXT, MAP_TO /
+   MAPPED_FROM; the free list; GetEntry, PutAuxAux, SwapEntryMaps, RemoveEntry (storage part),
+   PushToFreeList / PopFromFreeList, CreateEntriesArray, the rebuild of EnsureSize and the growth rule
+   of PutAux; ComputeTableIndexTypeForTableSize.  [sinv]: MAP_TO / MAPPED_FROM are inverse
+   permutations, every bucket chain is a doubly linked list of used slots with the right bucket whose
+   head is the MAP_TO image of the bucket, the free list is a doubly linked list of exactly the unused
+   slots, the count is right.  [hashf] is an arbitrary hash function. *)
+
+Theorem C09_store_inv_create : forall n, 0 < n -> sinv (st_create n).
+Proof. exact sinv_create. Qed.
+Print Assumptions C09_store_inv_create.
+
+Theorem C09_store_inv_put : forall st hash key val,
+  sinv st -> nitems st < st_size st -> st_key_absent (slots st) key ->
+  sinv (fst (st_put_new st hash key val)).
+Proof. exact sinv_put_new. Qed.
+Print Assumptions C09_store_inv_put.
+
+Theorem C09_store_inv_remove : forall st i,
+  sinv st -> i < st_size st -> st_gh (slots st) i <> None -> sinv (st_remove st i).
+Proof. exact sinv_remove. Qed.
+Print Assumptions C09_store_inv_remove.
+
+Theorem C09_store_inv_rebuild : forall (hashf : Z -> N) n es,
+  0 < n -> length es <= n -> NoDup (map st_ekey es) -> sinv (st_rebuild n es).
+Proof. exact sinv_rebuild. Qed.
+Print Assumptions C09_store_inv_rebuild.
+
+(* GetEntry's walk along the bucket chain finds a key exactly when some used slot holds it *)
+Theorem C09_store_get_correct : forall hashf st k i,
+  sinv st -> st_hash_ok hashf (slots st) ->
+  (st_get st (hashf k) k = Some i <->
+   i < st_size st /\ st_gh (slots st) i <> None /\ st_gk (slots st) i = k).
+Proof. exact st_get_correct. Qed.
+Print Assumptions C09_store_get_correct.
+
+Theorem C09_store_keys_distinct : forall st x y,
+  sinv st -> x < st_size st -> y < st_size st ->
+  st_gh (slots st) x <> None -> st_gh (slots st) y <> None ->
+  st_gk (slots st) x = st_gk (slots st) y -> x = y.
+Proof. exact st_keys_distinct. Qed.
+Print Assumptions C09_store_keys_distinct.
+
+(* finite-map laws against [st_lookup], a scan of all slots that ignores the chains *)
+Theorem C09_store_put_lookup_same : forall st hash key val,
+  sinv st -> nitems st < st_size st -> st_key_absent (slots st) key ->
+  st_lookup (fst (st_put_new st hash key val)) key = Some val.
+Proof. exact st_put_new_lookup_same. Qed.
+Print Assumptions C09_store_put_lookup_same.
+
+Theorem C09_store_put_lookup_other : forall st hash key val k',
+  sinv st -> nitems st < st_size st -> st_key_absent (slots st) key -> k' <> key ->
+  st_lookup (fst (st_put_new st hash key val)) k' = st_lookup st k'.
+Proof. exact st_put_new_lookup_other. Qed.
+Print Assumptions C09_store_put_lookup_other.
+
+Theorem C09_store_remove_lookup_same : forall st i,
+  sinv st -> i < st_size st -> st_gh (slots st) i <> None ->
+  st_lookup (st_remove st i) (st_gk (slots st) i) = None.
+Proof. exact st_remove_lookup_same. Qed.
+Print Assumptions C09_store_remove_lookup_same.
+
+Theorem C09_store_remove_lookup_other : forall st i k',
+  sinv st -> i < st_size st -> st_gh (slots st) i <> None -> k' <> st_gk (slots st) i ->
+  st_lookup (st_remove st i) k' = st_lookup st k'.
+Proof. exact st_remove_lookup_other. Qed.
+Print Assumptions C09_store_remove_lookup_other.
+
+(* reallocation (EnsureSize: every entry re-Put into a fresh array, in iteration order) loses nothing *)
+Theorem C09_store_rebuild_lookup : forall (hashf : Z -> N) st order n k,
+  sinv st -> st_order_ok st order -> 0 < n -> length order <= n ->
+  st_lookup (st_rebuild n (st_entries st order)) k = st_lookup st k.
+Proof. exact st_rebuild_lookup. Qed.
+Print Assumptions C09_store_rebuild_lookup.
+
+(* index width: every stored index (BUCKET_PREV/NEXT, MAP_TO, MAPPED_FROM, free head) is below the
+   sentinel (IndexType)-1 of the width chosen by ComputeTableIndexTypeForTableSize -- narrowing to
+   uint8 / uint16 / uint32 loses nothing and never collides with the sentinel *)
+Theorem C09_store_index_width : forall st,
+  sinv st -> st_size st < idx_limit 2 -> st_narrow_ok st = true.
+Proof. exact st_narrow_ok_sinv. Qed.
+Print Assumptions C09_store_index_width.
+
+(* all finite histories of Put / Get / Remove / EnsureSize, with the growth rule of PutAux: the storage
+   layer returns what the ideal finite map returns ... *)
+Theorem C09_store_run_correct : forall hashf n ops, 0 < n ->
+  st_run hashf (mkRun (st_create n) []) ops = fm_run (fun _ => None) ops.
+Proof. exact st_run_correct. Qed.
+Print Assumptions C09_store_run_correct.
+
+(* ... which is what the L1 iteration-list model (any class, any number of iterators) returns *)
+Theorem C09_store_refines_l1 : forall var dcap (hashf : Z -> N) n ni ops, 0 < n ->
+  st_run hashf (mkRun (st_create n) []) ops =
+  map out_val (outs1 var dcap (init_world dcap 1 ni) (map op_of_sop ops)).
+Proof. exact storage_refines_l1. Qed.
+Print Assumptions C09_store_refines_l1.
+
+(* non-vacuity: seven slots, every key in the same bucket; a Put whose starter slot is taken by another
+   bucket (SwapEntryMaps), the removal of a bucket head with a successor, growth from 7 to 14 slots *)
+Example C09_store_nonvacuous :
+  let hf := fun k : Z => Z.to_N (k mod 3) in
+  let ops := [SPut 0 10; SPut 3 13; SPut 1 11; SPut 6 16; SGet 3; SRemove 0; SPut 9 19; SPut 4 14; SPut 7 17; SPut 2 12; SPut 5 15; SPut 8 18;
+              SGet 6; SGet 0; SRemove 3; SGet 9]%Z in
+  st_run hf (mkRun (st_create 7) []) ops =
+    [None; None; None; None; Some 13; Some 10; None; None; None; None; None; None; Some 16; None; Some 13; Some 19]%Z.
+Proof. vm_compute. reflexivity. Qed.
 
 (* the auto-sorting classes (OrderedKeysHashtable: var = VKeys, OrderedValuesHashtable: var = VVals):
    in every world reachable by operations that keep auto-sort enabled and do not explicitly reorder
